@@ -52,7 +52,7 @@ func newAEAD(key []byte, nonceSize, tagSize int, path string) (cipher.AEAD, stri
 	default:
 		g, ok := blk.(gcmAble)
 		if !ok {
-			panic("harness: path cannot have both sizes non-standard")
+			return nil, "", fmt.Errorf("the cipher does not offer NewGCM(nonceSize, tagSize) (cipher.AEAD, error)")
 		}
 		a, err = g.NewGCM(nonceSize, tagSize)
 	}
@@ -114,6 +114,7 @@ func init() {
 		a, kind, err := newAEAD(key, c.num("noncesize"), c.num("tagsize"), c.str("path"))
 		ev["err"] = errStr(err)
 		ev["kind"] = kind
+		ev["asm_available"] = sm4.VerifCanDoAsm()
 		ev["key_after"] = B(key)
 		if err == nil {
 			ev["ns"], ev["ov"] = a.NonceSize(), a.Overhead()
